@@ -25,13 +25,25 @@ SITES = ["py.distance", "c.distance", "py.wps", "c.wps", "py.matrix", "c.matrix"
 
 
 def gen_cases(rng, tier):
-    n = 3000 if tier == "quick" else 36000
-    maxlen = 7 if tier == "quick" else 10
+    n = 6000 if tier == "quick" else 60000
+    maxlen = 8 if tier == "quick" else 11
     cases = []
     for k in range(n):
         site = SITES[k % len(SITES)]
         case = dtwgen.rand_case(rng, site, maxlen=maxlen, allow_mld=False)
         s = case["settings"]
+        if rng.random() < 0.35:
+            # shapes on which the pruning columns (sc/ec) actually move against the band: an early large mismatch,
+            # an active but wide window, longer series
+            case["s1"] = list(case["s1"])
+            case["s1"][0] += rng.choice([4, 6, -5])
+            if rng.random() < 0.5 and len(case["s2"]) > 1:
+                case["s2"] = list(case["s2"])
+                case["s2"][rng.randrange(len(case["s2"]))] += rng.choice([3, -4])
+            m = max(case["r"], case["c"])
+            s["window"] = rng.randint(max(1, m // 2), max(1, m - 1))
+            s["psi"] = None
+            dtwgen.derived(case)
         mode = "max_dist" if rng.random() < 0.6 else "use_pruning"
         case["mode"] = mode
         if mode == "max_dist":
